@@ -278,6 +278,36 @@ fn cmd_any(args: &[&str]) -> String {
     }
 }
 
+// A combinator of combinators, each built from a (possibly empty) group of expressions: `anyn <path> g1a g1b - g2a - - g3a`.
+fn cmd_anyn(args: &[&str]) -> String {
+    let path = unhex(args[0]);
+    let mut groups: Vec<Vec<String>> = vec![vec![]];
+    for arg in &args[1..] {
+        if *arg == "-" {
+            groups.push(vec![]);
+        }
+        else {
+            groups.last_mut().unwrap().push(unhex(arg));
+        }
+    }
+    match guarded(|| {
+        let mut inner = vec![];
+        for group in groups.iter() {
+            inner.push(build_any(group)?);
+        }
+        wax::any(inner).map(|any| {
+            let mut output = format!("ok\tm={}", u8::from(any.is_match(path.as_str())));
+            output.push_str(&field("tree", guarded(|| any.verif_tree())));
+            output.push_str(&program_fields(&any));
+            output
+        })
+    }) {
+        None => "panic".into(),
+        Some(Ok(report)) => report,
+        Some(Err(_)) => "err".into(),
+    }
+}
+
 // `any` of compiled globs and of nested combinators must agree with `any` of text.
 fn cmd_anymatch(args: &[&str]) -> String {
     let path = unhex(args[0]);
@@ -534,6 +564,22 @@ fn cmd_part(args: &[&str]) -> String {
                     output.push_str(&field("repart", repartition));
                 },
             }
+            // The same partition of the owned glob (its own expression text, its own token tree).
+            let owned = guarded(|| {
+                let (prefix, postfix) = Glob::new(&expression).unwrap().into_owned().partition();
+                let mut output = format!("\toprefix={}", hex(prefix.to_str().unwrap()));
+                match postfix {
+                    None => output.push_str("\topost=-"),
+                    Some(postfix) => {
+                        output.push_str(&format!("\topost={}", hex(&postfix.to_string())));
+                        output.push_str(&field("optree", guarded(|| postfix.verif_tree())));
+                        output.push_str(&field("opre", guarded(|| hex(postfix.verif_pattern()))));
+                        output.push_str(&field("opcaps", guarded(|| captures_text(&postfix))));
+                    },
+                }
+                output
+            });
+            output.push_str(&owned.unwrap_or_else(|| "\toprefix=!".to_string()));
             output
         })
     }) {
@@ -622,6 +668,7 @@ fn dispatch(line: &str) -> String {
         "anymatch" => cmd_anymatch(&args),
         "mm" => cmd_mm(&args),
         "anymm" => cmd_anymm(&args),
+        "anyn" => cmd_anyn(&args),
         "routes" => cmd_routes(&args),
         "not" => cmd_not(&args),
         "part" => cmd_part(&args),
